@@ -32,3 +32,20 @@ impl Trace {
 }
 
 pub fn clamp31(v: u64) -> i64 { if v > 0x7FFF_FFFF { 0x7FFF_FFFF } else { v as i64 } }
+
+/// Payload carrying an operation tag: "p<tag>;" followed by a tag-dependent filler up to `size` bytes
+pub fn payload_for(tag: u64, size: usize) -> Vec<u8> {
+    let mut payload = format!("p{};", tag).into_bytes();
+    while payload.len() < size { payload.push(b'a' + ((payload.len() * 7 + tag as usize) % 23) as u8); }
+    payload
+}
+/// The tag a payload carries, if any
+pub fn tag_of(payload: &[u8]) -> Option<u64> {
+    if payload.first() != Some(&b'p') { return None; }
+    let end = payload.iter().position(|b| *b == b';')?;
+    std::str::from_utf8(&payload[1..end]).ok()?.parse().ok()
+}
+/// (tag, payload is exactly what payload_for makes for that tag and length)
+pub fn check_payload(payload: &[u8]) -> (u64, bool) {
+    match tag_of(payload) { Some(t) => (t, payload == payload_for(t, payload.len()).as_slice()), None => (0, false) }
+}
